@@ -7,6 +7,14 @@ VERIF = os.path.dirname(os.path.dirname(os.path.abspath(__file__)))
 
 # pid -> (technique, level text, level_note, design_ref)
 CLAIMED = {
+    "C01": ("formula extraction of the mass-balance builders and of the result bookkeeping into linear forms (sympy), adjacency-filter extraction, "
+            "sign-convention product, call-site argument dataflow for the demand clock, must-pass-through on run_sim's CFG",
+            "Decides that the equations handed to the solver and the bookkeeping that reports their solution encode conservation with one consistent "
+            "sign, adjacency and clock convention for every junction/tank/reservoir and every link set: balance rows, INLET/OUTLET filters, "
+            "tank/reservoir demand recomputation, leak demand, DD/PDD demand copy, Demands/TimeSeries/Pattern.at formulas, sim_time+pattern_start and "
+            "demand multiplier at every call site in wntr.sim, parameter refresh before each solve.",
+            "Does not decide that reported numbers satisfy the balance within tolerance (needs the solver; evaluator fidelity is C15). Pattern "
+            "interpolation branch is not compared. Trusts sympy normal forms, sa/symx.py, sa/cfg.py.", "DESIGN.md §4 C01"),
     "C02": ("formula extraction: abstract interpretation of each constraint/parameter builder (AST -> sympy terms, all status/isinstance paths "
             "enumerated, no solver) compared as closed formulas with the documented laws; finite truth tables / region evaluation of status "
             "properties and check-valve / pump conditions by partial evaluation",
